@@ -35,6 +35,7 @@ Inductive pstmt : Type :=
 | PWhile (c : ann) (body : list pstmt)
 | PFor (x : ident) (cnt : ann) (body : list pstmt)
 | PBreak
+| PContinue
 | PWrite (e : ann)
 | PSleep (e : ann)
 | PExprS (e : ann).
@@ -56,6 +57,8 @@ Inductive cnode : Type :=
 | NWhile (c : Z) (body : list cnode)
 | NFor (x : ident) (cnt : Z) (body : list cnode)
 | NBreak
+| NContinue                          (* `continue;` *)
+| NReturn                            (* `return;` (ReturnStmt(expr=None): `continue` at the level of the main loop) *)
 | NWrite (id : Z)
 | NSleep (id : Z)
 | NExprS (id : Z).
